@@ -174,7 +174,7 @@ Definition np_gformula (plan : planrow) (rows : list row) : Q := np_rec plan row
 
 (* textbook (flat) form:  sum_k sum_{l_0..l_k} h_k * prod_{j<k} (1-h_j) * prod_{j<=k} f_j *)
 Fixpoint all_hists (m : nat) : list (list bool) :=
-  match m with O => [[]] | S m' => flat_map (fun h => [h ++ [false]; h ++ [true]]) (all_hists m') end.
+  match m with O => [[]] | S m' => map (cons false) (all_hists m') ++ map (cons true) (all_hists m') end.
 Fixpoint Qprod {A} (f : A -> Q) (l : list A) : Q := match l with [] => 1 | x :: xs => f x * Qprod f xs end.
 Definition np_term (plan : planrow) (rows : list row) (k : nat) (lh : list bool) : Q :=
   Qprod (fun j => fprop plan rows j (firstn j lh) (nth j lh false)) (seq 0 (S k)) *
